@@ -41,6 +41,11 @@ POOL: List[J] = [
     dop("w2", dct_std("A_UNICODE2STRING", 32)),
     dop("lin8", dct_std("A_UINT32", 8), "A_INT32", linear(-40, 1)),
     dop("linf", dct_std("A_UINT32", 16), "A_FLOAT64", linear(0, 0.001), precision=1),
+    dop("tabi", dct_std("A_UINT32", 8), "A_UINT32",
+        {"cat": "TAB-INTP", "i2p": {"scales": [{"lo": (0, "CLOSED"), "const": {"v": 0}},
+                                               {"lo": (10, "CLOSED"), "const": {"v": 100}},
+                                               {"lo": (20, "CLOSED"), "const": {"v": 150}},
+                                               {"lo": (200, "CLOSED"), "const": {"v": 1050}}]}}),
     dop("txt", dct_std("A_UINT32", 8), "A_UNICODE2STRING",
         texttable([(0, "zero"), (1, "one"), (2, "two"), (200, "many")])),
     dop("mmz", dct_minmax("A_ASCIISTRING", 0, 6, "ZERO")),
@@ -62,7 +67,7 @@ POOL: List[J] = [
      "linked": [{"dop": "dtc", "not_inherited": ["P0123"]}]},
 ]
 FIXED_SIMPLE = ["u8", "u16", "u16le", "u24", "s8", "s16le", "f32", "b2", "b4", "a3", "w2", "lin8",
-                "linf", "txt", "bcd16", "dtc", "f64le", "dtc_linked"]
+                "linf", "txt", "bcd16", "dtc", "f64le", "dtc_linked", "tabi"]
 BITS_SIMPLE = ["u4", "u3", "u1", "u12", "s12sm", "u8mask"]
 OPEN_SIMPLE = ["mmz", "mmf", "mmu", "ll8", "ll16s"]
 
@@ -81,6 +86,16 @@ def good_value(o: J, layer_by: Dict[str, J], r: random.Random, depth: int = 0) -
         cat = o["compu"]["cat"]
         if cat == "TEXTTABLE":
             return r.choice(o["compu"]["i2p"]["scales"])["const"]["vt"]
+        if cat == "TAB-INTP":
+            # a physical value that is the exact image of an internal value
+            pts = [(sc["lo"][0], sc["const"]["v"]) for sc in o["compu"]["i2p"]["scales"]]
+            a, b = r.choice(list(zip(pts, pts[1:])))
+            if r.random() < 0.4:
+                return r.choice([a[1], b[1]])
+            step = (b[1] - a[1]) // (b[0] - a[0]) if (b[1] - a[1]) % (b[0] - a[0]) == 0 else None
+            if step:
+                return a[1] + step * r.randrange(0, b[0] - a[0] + 1)
+            return a[1]
         if base in ("A_UINT32", "A_INT32"):
             n = d.get("bits", 8)
             enc = d.get("enc")
